@@ -1943,6 +1943,16 @@ def check_C19(case):
         if not (math.isfinite(a.real) and math.isfinite(a.imag) and math.isfinite(b.real) and math.isfinite(b.imag)) or abs(a) > 1e60:
             continue
         if abs(a - b) > 1e-9 * max(1.0, abs(a)):
+            # is the point ill-conditioned?  Nudge every floating-point literal of the ORIGINAL by two units in the last place: when that alone moves the
+            # original's value beyond the tolerance (tan or sqrt next to a zero, cancellation), rounding an intermediate product to a double - which evaluating
+            # the translated text legitimately does - decides the value, and no statement about "the same value" can be made at this point
+            try:
+                nudged = e.xreplace({f: sympy.Float(float(f) * (1 + 4.4e-16), 53) for f in e.atoms(sympy.Float)})
+                a2 = complex(sympy.N(nudged.subs(pt), 30))
+                if abs(a - a2) > 1e-10 * max(1.0, abs(a)):
+                    continue
+            except Exception:
+                pass
             return False, f"{sympy.srepr(e) if len(str(e)) < 80 else e} = {e} -> neutral tree -> {back}: values {a} and {b} at {pt}"
     return True, "ok"
 
